@@ -132,9 +132,20 @@ type mapIter struct {
 	base int          // order mode: entries present when iteration began
 }
 
-func (m *Machine) rangeMap(sm *symMap) *mapIter {
+func (m *Machine) rangeMap(sm *symMap) *mapIter { return m.rangeMapIn(sm, false) }
+
+func (m *Machine) rangeMapIn(sm *symMap, order bool) *mapIter {
 	it := &mapIter{sm: sm}
-	if m.OrderMode && sm != nil {
+	if order && sm != nil && sm.n > 1 && m.orderBudget > 0 {
+		// Order exploration is budgeted: at most orderBudget range
+		// instances per evaluation leave the canonical (insertion) order,
+		// each of them over all permutations. Which instances do is itself
+		// a choice, so every single range (pair of ranges, ...) of the
+		// evaluation is permuted on some path.
+		if m.choose(2, "permute-this-range") == 0 {
+			return it
+		}
+		m.orderBudget--
 		it.done = map[int]bool{}
 		it.base = len(sm.ents)
 	}
